@@ -28,6 +28,13 @@ type goHooks struct {
 	// inlineOnly, when set, restricts in-place analysis to the callees it accepts
 	inlineOnly func(g *goProg, a *AbsState, call *ssa.Call, f *ssa.Function) bool
 	onAppend   func(g *goProg, a *AbsState, call *ssa.Call, dst, src sliceAbs)
+	// keepFields: the (not inlined) callee is known not to write the fields the analysis tracks
+	keepFields func(g *goProg, call *ssa.Call, f *ssa.Function) bool
+	// freshField: a tracked field was (re)loaded as an unknown value (first use, or after a call that may have
+	// written it): the object invariant of the analysed type may be assumed here
+	freshField func(g *goProg, a *AbsState, fk string)
+	// afterCall: contracts of callees that are not analysed in place (results keyed k, or k#i for tuples)
+	afterCall func(g *goProg, a *AbsState, call *ssa.Call, f *ssa.Function)
 }
 
 type goProg struct {
@@ -674,6 +681,9 @@ func (g *goProg) step(a *AbsState, in ssa.Instruction, check bool) []*AbsState {
 						// property relate a later value of the field to this one
 						ok := "fld:orig:" + fk[len("fld:"):]
 						a.vals[ok+".len"], a.vals[ok+".off"] = s.len, s.off
+						if g.hooks.freshField != nil {
+							g.hooks.freshField(g, a, fk)
+						}
 					}
 					return one
 				default:
@@ -683,6 +693,9 @@ func (g *goProg) step(a *AbsState, in ssa.Instruction, check bool) []*AbsState {
 						} else {
 							v := g.havocT(a, "ld_"+x.Name(), x.Type())
 							a.vals[g.k(x)], a.vals[fk] = v, v
+							if g.hooks.freshField != nil {
+								g.hooks.freshField(g, a, fk)
+							}
 						}
 						return one
 					}
@@ -970,7 +983,7 @@ func (g *goProg) call(a *AbsState, x *ssa.Call, check bool) []*AbsState {
 	if outs, ok := g.inlineCall(a, x, f, check); ok {
 		return outs
 	}
-	if !pureCallee(f) {
+	if !pureCallee(f) && !(g.hooks.keepFields != nil && g.hooks.keepFields(g, x, f)) {
 		g.killAllFields(a)
 	}
 	if check && inModule(f) {
@@ -991,6 +1004,9 @@ func (g *goProg) call(a *AbsState, x *ssa.Call, check bool) []*AbsState {
 		}
 	} else if _, _, isI := isIntType(x.Type()); isI {
 		a.vals[k] = g.havocT(a, "ret_"+x.Name(), x.Type())
+	}
+	if g.hooks.afterCall != nil {
+		g.hooks.afterCall(g, a, x, f)
 	}
 	return one
 }
